@@ -30,6 +30,9 @@ def _s(v):
 
 
 def _fresh(interp, base):
+    if interp.st.no_fork:
+        # a fresh piece would have to be a function of the bound variable
+        raise Unsupported('string decomposition inside a quantifier body')
     return interp.st.fresh_str(base)
 
 
@@ -45,8 +48,8 @@ def count_fn(interp, ch):
     if f is None:
         f = z3.Function('count[%r]' % ch, z3.StringSort(), z3.IntSort())
         fns[ch] = f
-        interp.st.assume(f(z3.StringVal('')) == 0)
-        interp.st.assume(f(z3.StringVal(ch)) == 1)
+        interp.st.axiom(f(z3.StringVal('')) == 0)
+        interp.st.axiom(f(z3.StringVal(ch)) == 1)
         # additivity over every concatenation / decomposition performed so far
         for whole, parts in list(interp.st.ghost.get('__concats__', [])):
             note_concat(interp, whole, parts, only=ch)
@@ -61,9 +64,10 @@ def _count_facts(interp, f, ch, t):
         return
     st.ghost[key] = t
     c = z3.StringVal(ch)
-    st.assume(z3.And(f(t) >= 0, f(t) <= z3.Length(t)))
+    # instances of axioms of the counting function: valid in every context (not scoped)
+    st.axiom(z3.And(f(t) >= 0, f(t) <= z3.Length(t)))
     # trusted lemma: count(s) == 0  <=>  ch not in s
-    st.assume((f(t) == 0) == z3.Not(z3.Contains(t, c)))
+    st.axiom((f(t) == 0) == z3.Not(z3.Contains(t, c)))
 
 
 def note_concat(interp, whole, parts, only=None):
@@ -74,13 +78,17 @@ def note_concat(interp, whole, parts, only=None):
     if not fns:
         return
     st = interp.st
+    cat = z3.Concat(*parts) if len(parts) > 1 else parts[0]
     for ch, f in fns.items():
         if only is not None and ch != only:
             continue
-        st.assume(f(whole) == z3.Sum([f(p) for p in parts]) if len(parts) > 1 else f(whole) == f(parts[0]))
+        add = f(whole) == z3.Sum([f(p) for p in parts]) if len(parts) > 1 else f(whole) == f(parts[0])
+        # additivity, as an axiom instance that holds in every context: it carries the hypothesis
+        # whole == concat(parts) unless that is syntactically so
+        st.axiom(add if whole.eq(cat) else z3.Implies(whole == cat, add))
         for p in list(parts) + [whole]:
             if z3.is_string_value(p):
-                st.assume(f(p) == p.as_string().count(ch))
+                st.axiom(f(p) == p.as_string().count(ch))
             else:
                 _count_facts(interp, f, ch, p)
 
@@ -113,7 +121,7 @@ def _cat(pieces):
     return z3.Concat(*pieces)
 
 
-def _decomps(interp, t):
+def _decomp_entry(interp, t):
     d = interp.st.ghost.setdefault('__decomps__', {})
     ent = d.get(t.get_id())
     if ent is None:
@@ -121,8 +129,27 @@ def _decomps(interp, t):
         d[t.get_id()] = ent
         fl = _flat_concat(t)
         if len(fl) > 1:
-            ent[1].append(fl)
-    return ent[1]
+            ent[1].append((frozenset(), fl))
+    return ent
+
+
+def _usable(interp, tagged):
+    """A decomposition created inside a merge scope (under a temporary assumption) is known only there:
+    it may be used again only where all those assumptions are in force."""
+    cur = interp.st._scope_ids()
+    return [pieces for (sc, pieces) in tagged if sc <= cur]
+
+
+def _decomps(interp, t):
+    """the decompositions of t that are known in the current context (most refined last)"""
+    return _usable(interp, _decomp_entry(interp, t)[1])
+
+
+def _add_decomp(interp, t, pieces):
+    st = interp.st
+    st._keep = getattr(st, '_keep', [])
+    st._keep.extend(st.scopes)      # keep the scope terms alive: their ids identify them
+    _decomp_entry(interp, t)[1].append((st._scope_ids(), list(pieces)))
 
 
 def norm(interp, t, depth=0):
@@ -140,12 +167,47 @@ def norm(interp, t, depth=0):
     ent = d.get(t.get_id())
     if ent is None or not ent[1]:
         return t
-    pieces = ent[1][-1]
+    usable = _usable(interp, ent[1])
+    if not usable:
+        return t
+    pieces = usable[-1]
     return _cat([x for p in pieces for x in _flat_concat(norm(interp, p, depth + 1))])
 
 
 def _sn(interp, v):
     return norm(interp, _s(v))
+
+
+def _is_piece(t):
+    """a string constant without structure (a variable): may be given a decomposition"""
+    return z3.is_const(t) and not z3.is_string_value(t) and t.decl().kind() == z3.Z3_OP_UNINTERPRETED
+
+
+def learn(interp, t, depth=0):
+    """A fact has just been added to the context (path condition or current scope).  String equalities
+    x == u with x a variable are remembered as the decomposition x = pieces(u), so that later slices of x
+    (and of strings x is a piece of) share their pieces with u syntactically."""
+    if depth > 4 or not z3.is_app(t):
+        return
+    k = t.decl().kind()
+    if k == z3.Z3_OP_AND:
+        for c in t.children():
+            learn(interp, c, depth + 1)
+        return
+    if k != z3.Z3_OP_EQ:
+        return
+    a, b = t.children()
+    if not z3.is_string(a):
+        return
+    for x, u in ((a, b), (b, a)):
+        if _is_piece(x) and not x.eq(u):
+            if _decomps(interp, x):
+                continue
+            un = norm(interp, u)
+            if any(p.eq(x) for p in _flat_concat(un)):
+                continue       # would be circular
+            _add_decomp(interp, x, _flat_concat(un))
+            return
 
 
 def _len_of(p):
@@ -182,13 +244,13 @@ def cut(interp, t, a, base='piece'):
             if st.must_hold(z3.And(offs[j] <= a, a <= offs[j + 1])):
                 pa, pb = cut(interp, p, z3.simplify(a - offs[j]), base)
                 refined = pieces[:j] + [x for x in (pa, pb)] + pieces[j + 1:]
-                decs.append(refined)
+                _add_decomp(interp, t, refined)
                 return _cat(pieces[:j] + [pa]), _cat([pb] + pieces[j + 1:])
     p = _fresh(interp, base)
     q = _fresh(interp, base)
     st.assume(t == z3.Concat(p, q))
     st.assume(z3.Length(p) == a)
-    decs.append([p, q])
+    _add_decomp(interp, t, [p, q])
     note_concat(interp, t, [p, q])
     return p, q
 
@@ -238,7 +300,7 @@ def _decompose_free(interp, t, lens, base):
     for p, n in zip(pieces, lens):
         if n is not None:
             st.assume(z3.Length(p) == _z(n))
-    _decomps(interp, t).append(list(pieces))
+    _add_decomp(interp, t, pieces)
     note_concat(interp, t, pieces)
     return pieces
 
@@ -273,7 +335,7 @@ def getitem(interp, s, idx):
         a = z3.IntVal(0) if idx.start is None else z3.simplify(_norm_index(idx.start, L, interp))
         b = z3.simplify(L) if idx.stop is None else z3.simplify(_norm_index(idx.stop, L, interp))
         key = (t.get_id(), a.sexpr(), b.sexpr())
-        if key in cache:
+        if key in cache and cache[key][2] <= st._scope_ids():
             return cache[key][0]
         if st.must_hold(b >= a):
             mid_len = z3.simplify(b - a)
@@ -290,7 +352,7 @@ def getitem(interp, s, idx):
         else:
             p, m, r = decompose(interp, t, [a_len, mid_len, None], 'slice')
             res = wrap(m)
-        cache[key] = (res, t)
+        cache[key] = (res, t, st._scope_ids())
         return res
     i = _s(idx)
     if st.fork(wrap(z3.And(i >= 0, i < L))):
@@ -387,7 +449,7 @@ def _upred(interp, name, s):
     f = z3.Function('str.' + name, z3.StringSort(), z3.BoolSort())
     t = _s(s)
     st = interp.st
-    st.assume(z3.Not(f(z3.StringVal(''))))
+    st.axiom(z3.Not(f(z3.StringVal(''))))
     return wrap(f(t))
 
 
@@ -405,12 +467,22 @@ def call_method(interp, recv, name, args, kwargs):
             return wrap(z3.Or(*[f(_sn(interp, y), tn) for y in x])) if x else False
         return wrap(f(_sn(interp, x), tn))
     if name in ('find', 'index', 'rfind', 'rindex'):
-        if len(args) > 2:
-            raise Unsupported('%s with end' % name)
-        if name.startswith('r') and len(args) > 1:
-            raise Unsupported('%s with start' % name)
-        return _find(interp, recv, args[0], args[1] if len(args) > 1 else None,
-                     name.startswith('r'), name.endswith('index'))
+        if len(args) > 3:
+            raise _pyraise(TypeError('%s() takes at most 3 arguments' % name))
+        start = args[1] if len(args) > 1 else None
+        end = args[2] if len(args) > 2 else None
+        if end is not None or (name.startswith('r') and start is not None):
+            # s.find(sub, a, b) searches the slice s[a:b] (an occurrence must lie inside it)
+            if start is None or (isinstance(start, int) and start == 0):
+                base = 0
+            else:
+                base = wrap(z3.simplify(_norm_index(start, z3.Length(t), interp)))
+            mid = getitem(interp, recv, slice(start, end, None))
+            r = _find(interp, mid, args[0], None, name.startswith('r'), name.endswith('index'))
+            if isinstance(r, int) and r == -1:
+                return -1
+            return r if (isinstance(base, int) and base == 0) else wrap(_s(r) + _s(base))
+        return _find(interp, recv, args[0], start, name.startswith('r'), name.endswith('index'))
     if name in ('split', 'rsplit'):
         sep = args[0] if args else kwargs.get('sep')
         maxsplit = args[1] if len(args) > 1 else kwargs.get('maxsplit', -1)
@@ -428,11 +500,23 @@ def call_method(interp, recv, name, args, kwargs):
         return _strip(interp, recv, chars, name != 'rstrip', name != 'lstrip')
     if name == 'count':
         sub = args[0]
-        if isinstance(sub, str) and len(sub) == 1 and len(args) == 1:
+        if isinstance(sub, str) and len(sub) == 1 and len(args) <= 3:
+            if len(args) > 1:
+                # s.count(c, a, b) counts in the slice s[a:b]
+                t = _s(getitem(interp, recv, slice(args[1], args[2] if len(args) > 2 else None, None)))
             f = count_fn(interp, sub)
+            if z3.is_string_value(t):
+                return t.as_string().count(sub)
             _count_facts(interp, f, sub, t)
+            # additivity over the known pieces of t
+            tn = norm(interp, t)
+            if not tn.eq(t):
+                st.assume(f(t) == f(tn))      # t == tn holds in the current context
+            fl = _flat_concat(tn)
+            if len(fl) > 1:
+                note_concat(interp, tn, fl, only=sub)
             return wrap(f(t))
-        raise Unsupported('count of a non-single-character / with range')
+        raise Unsupported('count of a non-single-character')
     if name in ('isspace', 'isalnum', 'isdigit', 'isalpha', 'isidentifier', 'isupper', 'islower', 'isnumeric',
                 'isdecimal', 'isprintable'):
         return _upred(interp, name, recv)
